@@ -129,6 +129,22 @@ static TPM_RESULT TPM2_MainInit(void)
     has_cached_state = HasCachedState(TPMLIB_STATE_PERMANENT);
     has_nvram_file = _TPM2_CheckNVRAMFileExists(&has_nvram_loaddata_callback);
 
+    if (has_cached_state) {
+        unsigned char *buffer = NULL;
+        uint32_t buflen;
+        bool is_empty_buffer = false;
+
+        /* TPMLIB_SetState(TPMLIB_STATE_PERMANENT, NULL, 0) hides the stored
+           state: there is no state at all and a new TPM must be created */
+        if (CopyCachedState(TPMLIB_STATE_PERMANENT, &buffer, &buflen,
+                            &is_empty_buffer) == TPM_SUCCESS &&
+            is_empty_buffer) {
+            has_cached_state = false;
+            has_nvram_file = false;
+        }
+        free(buffer);
+    }
+
     if (!has_cached_state) {
         if (!has_nvram_file) {
             ret = _plat__NVEnable(NULL, 0);
